@@ -35,18 +35,20 @@ def SoundExcept (Rs Rc : Id → Prop) (l : Local) (c : Cat) : Prop :=
   (∀ k d tok loc, l.chks.get? k = some (.ent d tok loc true false) →
       Rc k ∨ ∃ rc, c.chks.get? k = some rc ∧ rc.core = d.core)
 
-/-- what the catalog holds beyond the local records is confined to `Ps` / `Pc` -/
-def Tight (Ps Pc : Id → Prop) (l : Local) (c : Cat) : Prop :=
+/-- what the catalog holds beyond the local records is confined to `Ps` / `Pc` (the check half
+    only under `T`) -/
+def Tight (T : Prop) (Ps Pc : Id → Prop) (l : Local) (c : Cat) : Prop :=
   (∀ id, l.svcs.get? id = none → c.svcs.get? id = none ∨ Ps id) ∧
-  (∀ k, l.chks.get? k = none → c.chks.get? k = none ∨ Pc k)
+  (T → ∀ k, l.chks.get? k = none → c.chks.get? k = none ∨ Pc k)
 
-structure GInv (Rs Rc Ps Pc : Id → Prop) (l : Local) (c : Cat) : Prop where
+/-- `T` switches on the part that needs `NoRebound` (the check half of `Tight`) -/
+structure GInv (T : Prop) (Rs Rc Ps Pc : Id → Prop) (l : Local) (c : Cat) : Prop where
   lwf : LocalWF l
   cwf : CatWF c
   nek : NoEmptyKey l c
-  nrb : NoRebound l c
+  nrb : T → NoRebound l c
   snd : SoundExcept Rs Rc l c
-  tgt : Tight Ps Pc l c
+  tgt : Tight T Ps Pc l c
 
 /-! ### small facts about records -/
 
@@ -74,6 +76,11 @@ theorem live?_deleted {δ : Type} (e : Ent δ) (h : e.deleted = true) : e.live? 
   cases e with
   | ghost x => rfl
   | ent d t lo x del => simp [Ent.deleted] at h; subst h; rfl
+
+theorem deleted_of_not_live {δ : Type} (e : Ent δ) (h : e.live? = none) : e.deleted = true := by
+  cases e with
+  | ghost b => rfl
+  | ent d t lo b del => cases del <;> simp_all [Ent.live?, Ent.deleted]
 
 /-! ### lookups after the local primitives -/
 
